@@ -23,7 +23,8 @@ func init() {
 			"R5 the sequential read returns the first member's answer only when it succeeded; R6 a helper that cancels the member's context before returning is not used for answers that are still to be read (BlobReader). " +
 			"R4b the merged listing is sorted by the unifier itself. " +
 			"R0 the unifier holds its two members in two different fields. " +
-			"R4c a member's listing error is cleared only when that very error is name-unknown.",
+			"R4c a member's listing error is cleared only when that very error is name-unknown. " +
+			"R7 ID, Size and ChunkSize of the unified writer assign no field of the writer (no memoised answers).",
 		NotDecided: "observable equality of the two members after arbitrary write histories, and equality of results of the two read policies on values, are not decided.",
 		Technique:  "static analysis: delegation/fan-out shape on SSA, dominance of both-succeeded conditions, phi-edge pairing in mergeIter",
 	})
@@ -195,6 +196,7 @@ func runC15(c *core.Ctx) {
 	sequentialFallsBackOnAnyFailure(c, "C15.R5")
 	cancelBeforeReturnNotForReaders(c, "C15.R6")
 	c15MergeIter(c)
+	unifiedWriterGettersArePure(c, "C15.R7")
 }
 
 func c15VerifyBoth(c *core.Ctx, both *ssa.Function) {
